@@ -274,8 +274,24 @@ class SymBackend:
         except (InvalidSignature, ValueError):
             return False
 
-    def arbitrary(self, name, n):
-        return self.ex.fresh_bytes("adv_" + name, n)
+    def arbitrary(self, name, n, avoid=()):
+        """adversary-chosen bytes.  `avoid`: values of the ideal world the bytes must differ from - a coincidence with
+        one of them is not 'arbitrary bytes' but the replay of that value, which the scenario selectors cover explicitly
+        (and which could not be replayed on the real library from the bytes alone)"""
+        v = self.ex.fresh_bytes("adv_" + name, n)
+        for a in avoid:
+            a = as_rope(a)
+            if isinstance(a.length(), int) and a.length() == n:
+                r = rope_eq(v, a)
+                if r is True:
+                    self.ex.assume(False)
+                elif r is not False:
+                    self.ex.assume(~r)
+        return v
+
+    def known_values(self, kinds):
+        """every term value of the given kinds the ideal world has produced so far"""
+        return [v for k, v in self.W.by_term.items() if k[0] in kinds]
 
     def srp_server(self, code, client_A=None):
         return SymSrpServer(self, code)
@@ -356,8 +372,11 @@ class RealBackend:
         except (InvalidSignature, ValueError):
             return False
 
-    def arbitrary(self, name, n):
+    def arbitrary(self, name, n, avoid=()):
         return self.ex.fresh_bytes("adv_" + name, n)
+
+    def known_values(self, kinds):
+        return []
 
     def srp_server(self, code):
         return RealSrpServer(code)
